@@ -14,6 +14,7 @@ import JanetModel.Peg.ReplaceLemmas
 import JanetModel.Peg.ValidateLemmas
 import JanetModel.Peg.CompileCorrect
 import JanetModel.Peg.BackrefLemmas
+import JanetModel.Peg.CompileEntry
 
 namespace JanetModel.Props.C12
 open JanetModel.Peg
@@ -287,6 +288,20 @@ theorem compile_simulation (dflt : Spec.Scope) (p : Spec.Patt) (o : Compile.Outp
       decode o.program a = some (i.rebuild as) ∧ Spec.fetch dflt c = some (i.rebuild bs) ∧
       as.length = i.kids.length ∧ bs.length = i.kids.length ∧ ∀ pr ∈ as.zip bs, (pr.1, pr.2) ∈ o.log :=
   compile_sim dflt p o hc
+
+/-- **compile_entry_zero.**  `compile_peg` ignores the rule address returned by the outermost `peg_compile1`; `peg_rule` is
+    started at `s->bytecode` (address 0).  The compile model's outermost call always returns 0 - through keyword references,
+    default-grammar entries and nested grammar tables alike - so the theorems above are about the rule peg.c really starts at. -/
+theorem compile_entry_zero (dflt : Spec.Scope) (p : Spec.Patt) (o : Compile.Output) (hc : Compile.compile dflt p = some o) :
+    o.entry = 0 :=
+  Compile.compile_entry_zero dflt p o hc
+
+/-- all five entry points, started at bytecode address 0 as peg.c does, are those of the source grammar -/
+theorem compile_entry_points_from_zero (E : Env) (hE : E.lenprefixLeak = false) (dflt : Spec.Scope) (p : Spec.Patt)
+    (o : Compile.Output) (hc : Compile.compile dflt p = some o) (fuel guard : Nat) :
+    opMatcher E (decode o.program) 0 fuel guard = denMatcher E (Spec.fetch dflt) ⟨[], p⟩ fuel guard := by
+  have h := compile_entry_points_eq_source E hE dflt p o hc fuel guard
+  rwa [compile_entry_zero dflt p o hc] at h
 
 /-- non-vacuity: the RECURSIVE grammar `{:main (+ (* "a" :main) "b")}` is accepted; the reference compiles to the address of
     the rule being compiled (0), the sequence is at 4, the literal "a" at 8 -/
